@@ -152,6 +152,8 @@ type Case struct {
 	TwinRef *Case `json:"-"`
 	// ShadowSkip exempts the case from the generic shadow run (cost control); TwinRef stays usable by property-specific monitors.
 	ShadowSkip bool `json:"-"`
+	// RespSeq scripts successive answers per URL (see Getter.Seq).
+	RespSeq map[string][]Resp `json:"resp_seq,omitempty"`
 	// ReuseGetterBuffer: the scripted getter reads every response into one buffer it keeps (see Getter.ReuseBuffer).
 	ReuseGetterBuffer bool `json:"reuse_getter_buffer,omitempty"`
 	// TwinKeep makes the case part of the default-root phase regardless of sampling.
